@@ -4,6 +4,9 @@ import BearVerif.Core.ClawAst
   declarative placement, the import index loop equals `takeWhile`/`dropWhile`, and the mutual structural
   inductions over statements / bodies / body lists.
 -/
+set_option linter.unusedSimpArgs false
+set_option linter.unusedVariables false
+
 namespace BearVerif.ClawAst
 
 /-! ### lists -/
